@@ -629,7 +629,13 @@ func attributeDeath(self string, p *Prop, id, tier string, k, n int, work, stder
 		return nil, fmt.Sprintf("worker %d died at case seq=%d but the case alone died only %d/3 times: %s", k, t.Seq, deaths, tail(se2, 800))
 	}
 	first := firstFatalLine(last)
-	return &Violation{Key: "crash: " + first, Payload: t.Payload,
+	// the key names the input, so that a known finding for one crashing input
+	// does not cover another one
+	in := strings.Join(strings.Fields(string(t.Payload)), " ")
+	if len(in) > 200 {
+		in = in[:200]
+	}
+	return &Violation{Key: "crash: " + first + " [case " + in + "]", Payload: t.Payload,
 		Detail: "worker process died (not a recoverable panic); confirmed 3/3 alone\n" + head(last, 3000)}, ""
 }
 
